@@ -550,6 +550,56 @@ func c13Cases(seed int64, tier string) []*c13Case {
 		site.Files[base+"hint.mp4"] = []byte("garbage")
 		return base + "s.m3u8"
 	})
+	// Low-Latency playlists that stop being Low-Latency on a later reload
+	for _, mode := range []string{"hint-disappears", "endlist-without-hint", "server-control-disappears", "becomes-multivariant", "reload-404", "reload-garbage"} {
+		mode := mode
+		for _, after := range []int{1, 2} {
+			after := after
+			add(fmt.Sprintf("playlist/ll-%s-after-%d", mode, after), func(site *origin.Site, base string) string {
+				plURL := base + "s.m3u8"
+				site.Files[base+"init.mp4"] = vInit
+				site.Kinds[base+"init.mp4"] = "init"
+				site.Files[base+"seg0.mp4"] = vSegs[0]
+				for k := 0; k < 4; k++ {
+					u := fmt.Sprintf("h%d.mp4", k)
+					site.Files[base+u] = marshalParts(&fmp4.Part{SequenceNumber: uint32(k), Tracks: []*fmp4.PartTrack{{ID: 1, BaseTime: uint64(900000 + k*4*1800), Samples: h264Samples(4)}}})
+					site.Kinds[base+u] = "part"
+				}
+				head := "#EXTM3U\n#EXT-X-VERSION:9\n#EXT-X-TARGETDURATION:1\n"
+				sc := "#EXT-X-SERVER-CONTROL:CAN-BLOCK-RELOAD=YES,PART-HOLD-BACK=1\n#EXT-X-PART-INF:PART-TARGET=0.3\n"
+				body := "#EXT-X-MAP:URI=\"init.mp4\"\n#EXTINF:0.08,\nseg0.mp4\n"
+				var texts []string
+				for k := 0; k < after; k++ {
+					parts := ""
+					for j := 0; j < k; j++ {
+						parts += fmt.Sprintf("#EXT-X-PART:DURATION=0.08,URI=\"h%d.mp4\"\n", j)
+					}
+					texts = append(texts, head+sc+body+parts+fmt.Sprintf("#EXT-X-PRELOAD-HINT:TYPE=PART,URI=\"h%d.mp4\"\n", k))
+				}
+				parts := ""
+				for j := 0; j < after; j++ {
+					parts += fmt.Sprintf("#EXT-X-PART:DURATION=0.08,URI=\"h%d.mp4\"\n", j)
+				}
+				switch mode {
+				case "hint-disappears":
+					texts = append(texts, head+sc+body+parts)
+				case "endlist-without-hint":
+					texts = append(texts, head+sc+body+parts+"#EXT-X-ENDLIST\n")
+				case "server-control-disappears":
+					texts = append(texts, head+body+fmt.Sprintf("#EXT-X-PRELOAD-HINT:TYPE=PART,URI=\"h%d.mp4\"\n", after))
+					texts = append(texts, head+body+parts+"#EXT-X-ENDLIST\n") // finite: whatever the client made of it, the stream ends
+				case "becomes-multivariant":
+					texts = append(texts, "#EXTM3U\n#EXT-X-STREAM-INF:BANDWIDTH=1000,CODECS=\"avc1.42c028\"\ns.m3u8\n")
+				case "reload-404":
+					texts = append(texts, "\x00404")
+				case "reload-garbage":
+					texts = append(texts, "#EXTM3U\n#EXT-X-TARGETDURATION:\n#EXTINF\n\xff\xfe")
+				}
+				site.Sequences[plURL] = texts
+				return plURL
+			})
+		}
+	}
 	add("playlist/ll-same-hint-forever", func(site *origin.Site, base string) string {
 		// the same valid part hinted again and again: the client may keep going but must stay
 		// closable and must not spin faster than the media it delivers
@@ -643,6 +693,7 @@ func c13Cases(seed int64, tier string) []*c13Case {
 }
 
 type c13Out struct {
+	StillBusy  bool     `json:"still_busy,omitempty"`
 	Name       string   `json:"name"`
 	Wait       string   `json:"wait"`
 	Self       bool     `json:"ended_by_itself"`
@@ -685,7 +736,12 @@ func runC13Case(c *c13Case) *c13Out {
 					break
 				}
 			}
-			if !out.Self {
+			if !out.Self && idle < 125 {
+				// still exchanging requests and units after 40 s: not a wedge; bounded by the
+				// request-count criterion below
+				out.StillBusy = true
+			}
+			if !out.Self && idle >= 125 {
 				out.Viol = append(out.Viol, fmt.Sprintf("C13/wedged|%s: the stream is finite but the client neither ended nor made progress for 12 s (requests %d, delivered %d, decode errors %d)", c.Name, srv.Count(), run.Delivered(), len(run.DecodeErrs)))
 			}
 		}
